@@ -446,7 +446,50 @@ def make_namespaces(oblig):
         import numpy as _n
         return [int(t) for t in _n.argsort([int(q) for q in v])]
 
-    impls.update(tile=a_tile, zeros_like=same, ones_like=same, argsort=a_argsort)
+    def _ax_list(v):
+        import numpy as _n
+        if isinstance(v, (int, _n.integer)):
+            return [int(v)]
+        return [int(t) for t in list(v)]
+
+    def a_tensordot(a, b, axes=2):
+        sa, sb = list(shape_of(a)), list(shape_of(b))
+        import numpy as _n
+        if isinstance(axes, (int, _n.integer)):
+            n_ = int(axes)
+            ia, ib = list(range(len(sa) - n_, len(sa))), list(range(n_))
+        else:
+            ia, ib = _ax_list(axes[0]), _ax_list(axes[1])
+        if len(ia) != len(ib):
+            raise ValueError("shape-mismatch for sum")
+        ia = [t % len(sa) if sa else t for t in ia]
+        ib = [t % len(sb) if sb else t for t in ib]
+        for p_, q_ in zip(ia, ib):
+            cx.assume(cx.SBool(dim_term(sa[p_]) == dim_term(sb[q_])))
+        res = [d for t, d in enumerate(sa) if t not in ia] + [d for t, d in enumerate(sb) if t not in ib]
+        return SArr(tuple(res), promote(kind_of(a), kind_of(b)))
+
+    def a_dot(a, b):
+        sa, sb = shape_of(a), shape_of(b)
+        if len(sa) == 0 or len(sb) == 0:
+            return SArr(bshape(sa, sb), promote(kind_of(a), kind_of(b)))
+        if len(sb) == 1:
+            return a_tensordot(a, b, ([len(sa) - 1], [0]))
+        return a_tensordot(a, b, ([len(sa) - 1], [len(sb) - 2]))
+
+    def a_inner(a, b):
+        sa, sb = shape_of(a), shape_of(b)
+        if len(sa) == 0 or len(sb) == 0:
+            return SArr(bshape(sa, sb), promote(kind_of(a), kind_of(b)))
+        return a_tensordot(a, b, ([len(sa) - 1], [len(sb) - 1]))
+
+    def a_outer(a, b):
+        return SArr((prod(list(shape_of(a))), prod(list(shape_of(b)))), promote(kind_of(a), kind_of(b)))
+
+    def a_asarray(x, dtype=None):
+        return SArr(shape_of(x), dtype.kind if isinstance(dtype, DT) else kind_of(x)) if isinstance(x, SArr) else x
+
+    impls.update(tile=a_tile, zeros_like=same, ones_like=same, argsort=a_argsort, tensordot=a_tensordot, dot=a_dot, inner=a_inner, outer=a_outer, asarray=a_asarray)
     impls.update(transpose=a_transpose, swapaxes=a_swapaxes, moveaxis=a_moveaxis, rollaxis=a_rollaxis, ravel=a_ravel, squeeze=a_squeeze, concatenate_args=a_concat_args,
                  split=a_split, pad=a_pad, rot90=a_rot90, matmul=a_matmul, atleast_1d=a_atleast(1), atleast_2d=a_atleast(2), atleast_3d=a_atleast(3),
                  flipud=same, fliplr=same, roll=same, triu=same, tril=same, cumsum=lambda x, axis=None: (same(x) if axis is not None else a_ravel(x)),
@@ -466,21 +509,31 @@ def make_namespaces(oblig):
     anp = shadow.Namespace("anp", impls, consts=dict(pi=3.141592653589793, newaxis=None))
 
     class ONP:
-        """raw numpy as the helpers use it: on SHAPES (ints) and to allocate"""
-        array = staticmethod(lambda v, dtype=None: ShapeVec(v) if isinstance(v, (list, tuple)) else v)
-        prod = staticmethod(prod)
-        zeros = staticmethod(a_zeros)
-        ones = staticmethod(a_zeros)
-        sum = staticmethod(a_sum)
-        logical_and = staticmethod(lambda a, b: [x and y for x, y in zip(a, b)])
-        mod = staticmethod(lambda v, n: [int(x) % int(n) for x in v] if isinstance(v, (list, tuple)) else int(v) % int(n))
-        where = staticmethod(lambda v: ([i for i, t in enumerate(v) if t],))
+        """raw numpy as the rule helpers use it: abstract operands -> the shape contracts above, concrete operands (axes, shapes, widths) -> NumPy itself"""
+        __version__ = "2.5.3"
 
         class lib:
             NumpyVersion = staticmethod(lambda v: "2.5.3")
-        __version__ = "2.5.3"
 
         def __getattr__(self, n):
+            if n in ("array",):
+                return lambda v, dtype=None: ShapeVec(v) if (isinstance(v, (list, tuple)) and any(isinstance(e, cx.SInt) for e in v)) else (_rnp.array(v, dtype=dtype) if not _abstract(v) else v)
+            if n == "prod":
+                return lambda v, *a, **k: prod(v) if _abstract(v) else _rnp.prod(v, *a, **k)
+            if n == "where":
+                return lambda v, *a: ([i for i, t in enumerate(v) if t],) if (isinstance(v, list) and not a) else _rnp.where(v, *a)
+            if n == "logical_and":
+                return lambda a_, b_: [x and y for x, y in zip(a_, b_)] if isinstance(a_, list) else _rnp.logical_and(a_, b_)
+            if n in impls:
+                return impls[n]
+            if hasattr(_rnp, n):
+                real = getattr(_rnp, n)
+
+                def g(*a, **k):
+                    if any(_abstract(v) for v in a) or any(_abstract(v) for v in k.values()):
+                        raise shadow.NotModelled("onp." + n)
+                    return real(*a, **k)
+                return g
             raise shadow.NotModelled("onp." + n)
 
     return anp, ONP()
